@@ -1,4 +1,4 @@
-import Resolvo.MDet.Encode
+import Resolvo.MDet.Async
 /-!
 # MDet — propagate, decide, analyze, run_sat, solve (`src/solver/mod.rs`)
 -/
@@ -250,7 +250,9 @@ def analyze (U : Universe) (level : Nat) (conflVar : Nat) (clauseId : Nat) (fuel
   let cid ← allocClause (.learnt lid) watch
   modify fun s => { s with learntIds := s.learntIds ++ [cid] }
   startWatching cid
-  let target := Nat.max backTo 1
+  -- never below the level the current run started from (the solution found before a soft requirement is tried)
+  let sl := (← get).runStart
+  let target := Nat.max (Nat.max backTo sl) 1
   undoUntil target
   modify fun s => { s with activity := s.activity.map (fun a => a * s.activityDecay) }
   pure (target, cid, lastLit)
@@ -317,6 +319,7 @@ def runSat (U : Universe) (P : Problem) (root : SoR) (fuel : Nat) : M SatResult 
   let s ← get
   let startLevel := match s.stack with | d :: _ => levelOf s d.var | [] => 0
   emit (.runsat root startLevel)
+  modify fun s => { s with runStart := startLevel }
   let rec loop : Nat → Nat → M SatResult
     | 0, _ => throw .outOfFuel
     | f + 1, level => do
@@ -326,7 +329,9 @@ def runSat (U : Universe) (P : Problem) (root : SoR) (fuel : Nat) : M SatResult 
         let v ← internSoR root
         match ← tryAdd v true 0 level with
         | some _ => pure ()
-        | none => panic "mod.rs:run_sat:expect#1"
+        | none =>
+          -- a restarted soft run whose solvable a learnt clause has refuted in the meantime
+          if startLevel == 0 then panic "mod.rs:run_sat:assert_ne#1" else return .sat false
         let conflicting ← encode U P [root] fuel
         match conflicting with
         | cid :: _ => return (← processUnsolvable root startLevel cid)
@@ -341,6 +346,8 @@ def runSat (U : Universe) (P : Problem) (root : SoR) (fuel : Nat) : M SatResult 
       match ← resolveDependencies U level fuel with
       | .unsolvable c => return .unsolvable c
       | .level l => level := l
+      -- a conflict undid everything this run decided (incl. the installation of the root): start over
+      if level == startLevel then return (← loop f startLevel)
       -- newly selected solvables whose clauses have not been added yet
       let s ← get
       let newSolvs : List SoR := (s.stack.reverse.filter (fun d => d.val)).filterMap (fun d =>
@@ -370,7 +377,8 @@ def solve (U : Universe) (P : Problem) (fuel : Nat) : M Outcome := do
     fetchedCands := s.fetchedCands, fetchedDeps := s.fetchedDeps, hinted := s.hinted, cachedSorted := s.cachedSorted,
     log := s.log, polls := s.polls, cancelAt := s.cancelAt, cancelAtCall := s.cancelAtCall, cancelTransient := s.cancelTransient,
     callsStarted := s.callsStarted, raised := s.raised,
-    activityAdd := s.activityAdd, activityDecay := s.activityDecay, trace := s.trace }
+    activityAdd := s.activityAdd, activityDecay := s.activityDecay, trace := s.trace,
+    asyncMode := s.asyncMode, sched := s.sched, aevents := s.aevents }
   let _ ← allocClause .root none
   match ← runSat U P none fuel with
   | .unsolvable c => return .unsat c
